@@ -43,6 +43,10 @@ def main(argv=None):
         return 0
 
     t0 = time.time()
+    import glob
+
+    for old in glob.glob(os.path.join(common.VERIF, "replays", pid, f"{a.tier}_*.json")):
+        os.remove(old)  # replay files of earlier runs of this tier are stale
     units = list(mod.work(a.tier, seed))
     print(f"[{pid}] tier={a.tier} seed={seed} work units={len(units)} workers={a.workers or common.nworkers()}", flush=True)
     evals = transitions = 0
